@@ -80,8 +80,10 @@ pub fn c17_atan2_quadrants() {
     reached();
 }
 
-//@ id=C17 tier=quick to=1200 cfg=std exh=1 desc="asin and acos of every valid x with |x| > 1 are invalid (real code)"
-#[cfg_attr(kani, kani::proof)]
+//@ id=C17 tier=quick to=1200 cfg=std exh=1 stub=1 stubs="restricted_asin, sqrt -> havoc (the domain error is an early return before them)" desc="asin and acos of every valid x with |x| > 1 are invalid"
+#[cfg_attr(all(kani, feature = "stubs"), kani::proof)]
+#[cfg_attr(all(kani, feature = "stubs"), kani::stub(twofloat::functions::trigonometry::restricted_asin, crate::uf::havoc_unary))]
+#[cfg_attr(all(kani, feature = "stubs"), kani::stub(twofloat::TwoFloat::sqrt, crate::uf::havoc_unary))]
 pub fn c17_asin_acos_domain() {
     let x = any_valid();
     // |x| > 1 exactly: |hi| > 1, or |hi| == 1 and lo pointing away from zero
